@@ -52,6 +52,30 @@ func scnPrio(name string, opts []prioOpt, order []string, prompt bool) *Scenario
 	return s
 }
 
+// scnPrioCrashFailover: X (priority 3) leads and crashes; its record lapses; A (priority
+// 1) notices first through its periodic check and wins the vacant key, so that B (priority
+// 2, takeover), an established follower that is not inside any acquisition round, sees a
+// lower-priority leader appear and has to preempt it through its watcher.
+func scnPrioCrashFailover(name string) *Scenario {
+	s := K2(&Scenario{Name: name})
+	s.Insts = []InstSpec{{ID: "X", Priority: 3}, {ID: "A", Priority: 1}, {ID: "B", Priority: 2, Takeover: true}}
+	s.Script = []Item{
+		{At: 1 * ms, Actor: "startX", Do: "start", Inst: "X", Fixed: true},
+		{At: 3*ms + 7*us, Actor: "startA", Do: "start", Inst: "A", Fixed: true},
+		{At: 1*s.H + 10*ms, Actor: "chaos", Do: "crash", Inst: "X", Fixed: true},
+		{At: 3 * s.H, Actor: "startB", Do: "start", Inst: "B", Fixed: true},
+	}
+	s.Horizon = 1*ms + s.H + s.TTL + 500*ms + 8*s.H
+	s = s.faultFree()
+	s.RandMenu = nil
+	s.LatencyBound = s.H/10 - ms
+	s.DelayMenu = []time.Duration{s.H/10 - 2*ms}
+	s.AllowDup = false
+	s.Tags = map[string]string{"c10": "prompt"}
+	s.DevFrom = 1*ms + s.H + s.TTL
+	return s
+}
+
 func c10Plan(tier string) []PlanItem {
 	var items []PlanItem
 	d := 1
@@ -101,6 +125,7 @@ func c10Plan(tier string) []PlanItem {
 			}
 		}
 	}
+	items = append(items, PlanItem{scnPrioCrashFailover("prio3/crash-failover-3-1-2T/prompt"), d})
 	if tier == "thorough" {
 		items = append(items, PlanItem{scnPrio("prio4/1T-2T-1-2T/order0", []prioOpt{{1, true}, {2, true}, {1, false}, {2, true}}, []string{"A", "B", "C", "D"}, false), 1})
 	}
@@ -190,14 +215,31 @@ func oracleC10(r *Result) ([]Violation, bool) {
 		if !ok {
 			continue
 		}
-		m := recAt(ts)
-		if m == nil {
+		// t0: the first instant from its start on at which the instance runs next to a
+		// live record of another instance with a lower stored priority
+		qualifies := func(m *Msg) (payload, bool) {
+			if m == nil || m.Del {
+				return payload{}, false
+			}
+			cp, cok := parsePayload(m.Val)
+			return cp, cok && cp.ID != sp.ID && cp.Prio < pmax
+		}
+		t0 := ts
+		cp, ok0 := qualifies(recAt(ts))
+		if !ok0 {
+			for _, m := range r.Hist {
+				if m.Key == "g" && m.At > ts {
+					if c2, ok2 := qualifies(m); ok2 {
+						cp, ok0, t0 = c2, true, m.At
+					}
+					break // only the first change after the start: later ones are consequences
+				}
+			}
+		}
+		if !ok0 {
 			continue
 		}
-		cp, cok := parsePayload(m.Val)
-		if !cok || cp.ID == sp.ID || cp.Prio >= pmax {
-			continue
-		}
+		ts = t0
 		nontrivial = true
 		var lam time.Duration
 		for _, op := range r.Ops {
@@ -219,7 +261,7 @@ func oracleC10(r *Result) ([]Violation, bool) {
 			}
 		}
 		if !okRec {
-			s.add(limit, "takeover-not-prompt", "%s (priority %d, takeover enabled) started at %v next to a leader with stored priority %d; by %v (3H + injected latency %v) the record is still not held at priority >= %d", sp.ID, pmax, ts, cp.Prio, limit, lam, pmax)
+			s.add(limit, "takeover-not-prompt", "%s (priority %d, takeover enabled) runs since %v next to a leader with stored priority %d; by %v (3H + injected latency %v) the record is still not held at priority >= %d", sp.ID, pmax, ts, cp.Prio, limit, lam, pmax)
 			continue
 		}
 		// owner claims, deposed leader demoted within the C03 bound of the replacement
